@@ -8,7 +8,7 @@ S=/verif/work/mutscratch-$PID-$$
 mkdir -p $S/repo && git -C /repo archive HEAD | tar -x -C $S/repo || exit 3
 # uncommitted add-only shim files of this property only (other properties' half-written shims must not interfere)
 low=$(echo $PID | tr A-Z a-z)
-( cd /repo && git ls-files --others --exclude-standard | grep -i "verif" | grep -i -e "$low" -e "verif_trace" -e "verif_on" -e "verif_off" | while read f; do mkdir -p $S/repo/$(dirname $f); cp $f $S/repo/$f; done )
+( cd /repo && { git ls-files --others --exclude-standard; git diff --name-only; } | grep -i "verif" | grep -i -e "$low" -e "verif_trace" -e "verif_conn" -e "verif_on" -e "verif_off" | while read f; do mkdir -p $S/repo/$(dirname $f); cp $f $S/repo/$f; done )
 ( cd $S/repo && patch -p1 -s < $PATCH ) || { echo "PATCH-FAILED"; rm -rf $S; exit 3; }
 ( cd $S/repo && go build ./... ) || { echo "BUILD-FAILED"; rm -rf $S; exit 3; }
 cd /verif && cp evidence/$PID.json $S/evidence.bak 2>/dev/null
